@@ -6,6 +6,8 @@ PROPERTIES = {
     "C01": [("ec", 1.0, 8)],
     "C02": [("ec", 1.0, 8)],
     "C09": [("hd", 1.0, 20)],
+    "C14": [("spv", 1.0, 40)],
+    "C19": [("hashcfg", 0.5, 100), ("spv", 0.5, 40)],
 }
 
 # wall seconds of search per property (shrinking and evidence writing come on top)
